@@ -24,10 +24,17 @@ type timer struct {
 // TimerID identifies a timer of the current execution.
 type TimerID int
 
+// FakeClock, when non-nil, is the clock of pass-through mode (no execution attached): sequential
+// engines that explore time as an ordinary operation (C08's BFS) point it at their own counter.
+var FakeClock *int64
+
 //go:norace
 func NowNanos() int64 {
 	x := X
 	if x == nil {
+		if p := FakeClock; p != nil {
+			return *p
+		}
 		return time.Since(Epoch).Nanoseconds()
 	}
 	return x.clock
@@ -39,6 +46,9 @@ func NowNanos() int64 {
 func Now() time.Time {
 	x := X
 	if x == nil || x.aborting {
+		if p := FakeClock; p != nil && x == nil {
+			return Epoch.Add(time.Duration(*p))
+		}
 		return time.Now()
 	}
 	Sched("time.Now")
